@@ -602,7 +602,62 @@ func c10RunSeveral(limit int, bodies []int) explore.Result {
 	return res
 }
 
+// c10RunMany: n oversized messages in ONE session (optionally a served query between any two): every one of them is
+// answered with its own non-fatal error, whatever its position, and the session goes on.
+func c10RunMany(limit, n int, between bool) explore.Result {
+	var res explore.Result
+	res.Outcome = "oversized-session"
+	res.Key = fmt.Sprint("many", limit, n, between)
+	stream := pgproto.Startup("user", "u")
+	want := ""
+	for i := 0; i < n; i++ {
+		stream = append(stream, pgproto.Msg([]byte{'Q', 'P', 'B', 'd'}[i%4], make([]byte, limit+1+i%5))...)
+		want += "EZ"
+		if between {
+			stream = append(stream, pgproto.Query(progRows)...)
+			want += "TDCZ"
+		}
+	}
+	stream = append(stream, pgproto.Query(progRows)...)
+	want += "TDCZ"
+	o := c04RunLimit(false, c04Feed{Stream: stream}, false, limit)
+	what := fmt.Sprintf("limit %d, %d oversized messages in one session (a served query between them: %v), then a probe query", limit, n, between)
+	if o.engine != "" {
+		res.Engine = o.engine
+		return res
+	}
+	if o.status != memnet.Closed {
+		res.Fail("not-closed-after-eof", fmt.Sprintf("%s: connection is %s", what, o.status))
+	}
+	k := harness.Kinds(o.out)
+	if i := strings.IndexByte(k, 'Z'); i >= 0 {
+		k = k[i+1:] // after the start-up
+	}
+	if strings.Count(k, "E") != n || !strings.HasSuffix(k, "TDCZ") || strings.Count(k, "TDCZ") != strings.Count(want, "TDCZ") {
+		res.Fail("oversized-reply", fmt.Sprintf("%s: the session was answered %q: expected one 54000 error per oversized message (%d), every query and the probe served normally", what, k, n))
+	}
+	res.Trans = []string{fmt.Sprintf("session|%d oversized|session", n)}
+	return res
+}
+
 func c10Enumerate(tier string, emit explore.Emit) {
+	// every count of oversized messages in one session up to 64 (thorough 600): the position in the session is irrelevant
+	{
+		top := 64
+		if tier == "thorough" {
+			top = 600
+		}
+		for _, l := range []int{32, 1024} {
+			for n := 4; n <= top; n++ {
+				for _, between := range []bool{false, true} {
+					l, n, between := l, n, between
+					emit(explore.Case{Family: "several-oversized", Size: 4,
+						Desc: func() any { return map[string]any{"limit": l, "oversized_messages_in_one_session": n, "served_query_between": between} },
+						Run:  func() explore.Result { return c10RunMany(l, n, between) }})
+				}
+			}
+		}
+	}
 	// position "inside a TLS-upgraded session": the limit applies there exactly as on a plaintext connection
 	// (differential against the plaintext session, whose conformance the families below establish)
 	tlsLimits := []int{1024, 8192, 20000}
